@@ -24,10 +24,21 @@ from harness.common.isolated import run_many
 PID = "C18"
 LEVEL = "proof"
 REQUIRED_THEOREMS = [
-    "rowEntry_add_only", "matvec_set_first", "axisOps_apply", "bcData_ghost", "cart1_row_apply",
-    "cart1_matrix_eq_laplace_with_bc", "polar_matrix_eq_laplace_with_bc", "polar_rmin0_row_eq_laplace",
-    "sph_matrix_eq_laplace_with_bc", "cart2_row_apply", "cyl_row_apply", "cart1_matvec_eq_progSum",
-    "residual_identity", "curvature_row_degenerate",
+    "rowEntry_add_only", "matvec_set_first", "axisOps_apply", "bcData_ghost", "bcData_entries_lt", "axisOps_adds",
+    "cart1_row_apply", "cart2_row_apply", "cart3_row_apply", "cyl_row_apply",
+    # rows = stencil of C01 on the ghost-extended array, every class, also r_min = 0 (all rows)
+    "cart1_matrix_eq_laplace_with_bc", "cart2_matrix_eq_laplace_with_bc", "cart3_matrix_eq_laplace_with_bc",
+    "polar_matrix_eq_laplace_with_bc", "polar_rmin0_row_eq_laplace", "polar_disk_matrix_eq_laplace",
+    "sph_matrix_eq_laplace_with_bc", "sph_ball_matrix_eq_laplace", "cyl_matrix_eq_laplace_with_bc",
+    # the assembled entries the driver evaluates (rowEntry / matvec) = the terms, for every row program
+    "cart1_matvec_eq_progSum", "polar_matvec_eq_progSum", "sph_matvec_eq_progSum", "cart2_matvec_eq_progSum",
+    "cart3_matvec_eq_progSum", "cyl_matvec_eq_progSum",
+    # composition with bcData
+    "cart1_assembled_eq_laplace", "polar_assembled_eq_laplace", "polar_disk_assembled_eq_laplace", "sph_assembled_eq_laplace",
+    "sph_ball_assembled_eq_laplace", "cart2_assembled_eq_laplace", "cart3_assembled_eq_laplace", "cyl_assembled_eq_laplace",
+    "padded_line_exists", "padded_plane_exists",
+    "residual_identity", "curvature_row_degenerate", "curvature_row_degenerate_upper", "curvature_row_vanishes",
+    "curvature_row_vanishes_upper",
 ]
 RULE = ("seed-derived grids of all classes with 2-5 cells per axis (1-3 axes Cartesian, polar, spherical, cylindrical; "
         "with/without hole; periodic flags), one condition per side from value/derivative/mixed/curvature/periodic with "
@@ -43,16 +54,21 @@ CLS = {"UnitGrid": "cart", "CartesianGrid": "cart", "PolarSymGrid": "polar", "Sp
 KINDS = {"dirichlet", "neumann", "mixed", "curvature", "periodic", "antiperiodic"}
 
 
-def gen_case(rng):
+SINGULAR_KINDS = {"neumann", "curvature", "periodic"}
+
+
+def gen_case(rng, singular=False):
     """the conditions of the property's quantifier (value, derivative, mixed, curvature, periodic) on scalar fields;
     expression conditions have no sparse-matrix data and are outside the quantifier; a Robin coefficient with
-    2 + dx*gamma = 0 has no finite virtual-point formula (C02) and is not drawn here"""
+    2 + dx*gamma = 0 has no finite virtual-point formula (C02) and is not drawn here.
+    `singular`: the stratum of pure Neumann / periodic / curvature problems, whose matrices are singular - the problems
+    for which the statement demands an error (incompatible right-hand side) or a solution (compatible one)"""
     while True:
         c = c02.gen_case(rng, lambda *a, **k: None)
         g = c["grid"]
         if c["rank"] != 0 or min(g["shape"]) < 2:
             continue
-        if any(s["kind"] not in KINDS for s in c["sides"].values()):
+        if any(s["kind"] not in (SINGULAR_KINDS if singular else KINDS) for s in c["sides"].values()):
             continue
         ok = True
         for (ax, _up), s in c["sides"].items():
@@ -229,9 +245,16 @@ def judge(cls, kinds, M, vec, rec, rank):
         return None, kind
     sol, back = rec["sol"], rec["back"]
     if kind == "inconsistent":
-        return (dict(info, residual=float(np.abs(back - rhs).max()) if np.all(np.isfinite(back)) else "non-finite"),
-                "RuntimeError for a problem without solution", f"{cls}: unsolvable problem returned a field",
-                {"cls": cls, "symptom": "unsolvable-returned"}), kind
+        finite = bool(np.all(np.isfinite(sol)))
+        # a "solution" so large that the round-off of evaluating `M x` exceeds the solver's tolerance: the solver's
+        # residual test cannot tell it from a solution (spsolve on a matrix that is singular up to one ulp)
+        huge = finite and bool(np.any(np.finfo(float).eps * (np.abs(M) @ np.abs(sol)) > 1e-5 * (1.0 + np.abs(rhs - vec))))
+        key = ({"call_site": "make_general_poisson_solver", "symptom": "unsolvable-returned", "cause": "residual-test-below-roundoff"}
+               if huge else {"cls": cls, "symptom": "unsolvable-returned"})
+        return (dict(info, residual=float(np.abs(back - rhs).max()) if np.all(np.isfinite(back)) else "non-finite",
+                     max_abs_solution=float(np.abs(sol).max()) if finite else "non-finite"),
+                "RuntimeError for a problem without solution", f"{cls}: unsolvable problem returned a field"
+                + (" (huge vector that passes the solver's residual test by round-off)" if huge else ""), key), kind
     tol = solver_tolerance(M, vec, rhs, sol)
     if arr_far(back, rhs, tol):
         with np.errstate(invalid="ignore"):
@@ -249,9 +272,9 @@ def run(ctx):
     from harness.common.lean import LeanBatch
 
     rng = ctx.rng
-    n = ctx.budget(150, 1500)
+    n = ctx.budget(400, 2000)
     batch = LeanBatch(ctx.workdir)
-    cases = [gen_case(rng) for _ in range(n)]
+    cases = [gen_case(rng, singular=(i % 4 == 3)) for i in range(n)]
     reqs = [batch.add("c18.matrix", model_request(c)) for c in cases]
     answers = batch.run()
     res = run_many("harness.c18", "real_case", [(c, rng.randint(0, 10 ** 6)) for c in cases],
